@@ -34,16 +34,16 @@ theorem emit_popClip_opts (c : Client) (st : St) :
   | nil => rfl
   | cons o rest => simp [sendL, optCalls, optPrim, sendL_nil_evs, failTop]
 
-theorem emit_fill_top (c : Client) (st : St) (o : Opt) (rest : List Opt) (h : st.opts = o :: rest)
-    (hs : o.success = true) (ht : o.hasT = false) :
-    (emit c .fill st).opts = o :: failTop rest := by
+theorem emit_fill_top (c : Client) (b : Brush) (st : St) (o : Opt) (rest : List Opt) (h : st.opts = o :: rest)
+    (hs : o.success = true) (ht : o.bt = none) :
+    (emit c (.fill b) st).opts = o :: failTop rest := by
   simp only [emit, h]
   cases rest with
   | nil => simp [sendL, optCalls, optPrim, hs, failTop]
   | cons o' r' =>
     simp [sendL, optCalls, optPrim, optPrims, expandFillGlyph, hs, ht, sendL_nil_evs, failTop]
 
-theorem chain_resolve_last (d i : Nat) (h : i = d) : (glyphChain d).resolve i = some (.leaf true) := by
+theorem chain_resolve_last (d i : Nat) (h : i = d) : (glyphChain d).resolve i = some (.leaf (some [])) := by
   subst h; simp [glyphChain]
 
 theorem chain_resolve_inner (d i : Nat) (h : i < d) : (glyphChain d).resolve i = some (.glyph 0 (i + 1)) := by
@@ -61,10 +61,10 @@ theorem chain_step (d : Nat) (c : Client) (j : Nat) :
     intro i hi fuel hf dec st
     obtain ⟨f, rfl⟩ : ∃ f, fuel = f + 2 := ⟨fuel - 2, by omega⟩
     have hres := chain_resolve_last d (i + 1) (by omega)
-    simp only [trav, arm, hres, bump, if_true]
-    have hopts := emit_fill_top c
-      { opts := { success := true, hasT := false, gid := 0 } :: st.opts, evs := st.evs,
-        visits := st.visits + 1 + 1 } { success := true, hasT := false, gid := 0 } st.opts rfl rfl rfl
+    simp only [trav, arm, hres, bump]
+    have hopts := emit_fill_top c []
+      { opts := { success := true, bt := none, gid := 0 } :: st.opts, evs := st.evs,
+        visits := st.visits + 1 + 1 } { success := true, bt := none, gid := 0 } st.opts rfl rfl rfl
     split
     · rename_i heq; rw [hopts] at heq; cases heq
     · rename_i o rest heq
@@ -77,10 +77,10 @@ theorem chain_step (d : Nat) (c : Client) (j : Nat) :
     have hres := chain_resolve_inner d (i + 1) (by omega)
     simp only [trav, arm, hres]
     have h1 := ih (i + 1) (by omega) f (by omega) dec
-      { opts := { success := true, hasT := false, gid := 0 } :: (bump st).opts, evs := (bump st).evs,
+      { opts := { success := true, bt := none, gid := 0 } :: (bump st).opts, evs := (bump st).evs,
         visits := (bump st).visits }
     generalize trav (glyphChain d) c f (.glyph 0 (i + 1 + 1)) dec
-      { opts := { success := true, hasT := false, gid := 0 } :: (bump st).opts, evs := (bump st).evs,
+      { opts := { success := true, bt := none, gid := 0 } :: (bump st).opts, evs := (bump st).evs,
         visits := (bump st).visits } = r1 at h1 ⊢
     obtain ⟨h1a, h1v, h1o⟩ := h1
     simp only [failTop] at h1o
